@@ -63,13 +63,17 @@ def mkpu(val, mask, bits):
     return PU(val & full, mask, bits)
 
 class SymB:
-    """symbolic boolean with over-approximation (may be true) and under-approximation (must be true)."""
-    __slots__ = ('t', 'must')
-    def __init__(s, t, must=None): s.t = t; s.must = t if must is None else must
+    """symbolic boolean with over-approximation (may be true) and under-approximation (must be true).
+    key: identity of a banded floating-point comparison (same operands compared again on one path must
+    come out the same way in a real execution, so the first decision is reused)."""
+    __slots__ = ('t', 'must', 'key')
+    def __init__(s, t, must=None, key=None): s.t = t; s.must = t if must is None else must; s.key = key
     def exact(s): return s.must is s.t
     def __repr__(s): return 'SymB(%s)' % s.t
 
-def b_not(x): return SymB(z3.Not(x.must), z3.Not(x.t)) if not x.exact() else SymB(z3.Not(x.t))
+def b_not(x):
+    if x.exact(): return SymB(z3.Not(x.t))
+    return SymB(z3.Not(x.must), z3.Not(x.t), (x.key[0], x.key[1], x.key[2], not x.key[3]) if x.key else None)
 def b_and(x, y):
     if x.exact() and y.exact(): return SymB(z3.And(x.t, y.t))
     return SymB(z3.And(x.t, y.t), z3.And(x.must, y.must))
@@ -102,6 +106,23 @@ class Violation(Exception):
     def __init__(s, kind, msg, model=None): s.kind = kind; s.msg = msg; s.model = model
 
 
+INF = float('inf')
+def up(fr):
+    """round a non-negative rational bound up to a nearby double (keeps error bounds short; sound: never smaller)"""
+    if fr == 0: return fr
+    try: f = float(fr)
+    except OverflowError: return fr
+    if f == INF: return fr
+    r = Fraction(math.nextafter(f, INF))
+    return r if r >= fr else fr
+def dn(fr):
+    if fr == 0: return fr
+    try: f = float(fr)
+    except OverflowError: return fr
+    if f in (INF, -INF): return fr
+    r = Fraction(math.nextafter(f, -INF))
+    return r if r <= fr else fr
+
 def z3frac(x):
     if z3.is_int_value(x): return Fraction(x.as_long())
     if z3.is_rational_value(x): return Fraction(x.numerator_as_long(), x.denominator_as_long())
@@ -129,6 +150,7 @@ class Machine:
             if f.is_def:
                 s.block_index[name] = {lbl: i for i, (lbl, _) in enumerate(f.blocks)}
         s.stats = collections.Counter()
+        s.override = {}
         s.fnaddr = {n: 0x1000 + 16 * i for i, n in enumerate(module.funcs)}
 
     # ------------------------------------------------------------------ run one path
@@ -153,6 +175,10 @@ class Machine:
         s.violations = []
         s.notes = set()
         s.mcache = []
+        s.nl = False
+        s.last_solver = s.solver
+        s.band_memo = {}
+        s.band_strict = []
         s.max_steps = s.opts.get('max_steps', 30000000)
         s.called = set()
         s.check_sites = collections.Counter()
@@ -488,16 +514,31 @@ class Machine:
         if use_cache and extra is not None and s.quick_sat(extra): return True
         s.checks += 1
         t0 = time.time()
-        if extra is not None:
-            r = s.solver.check(extra)
+        if s.nl:
+            # nonlinear path condition: z3's incremental core is weak on NRA; a fresh solver runs the full
+            # (nlsat-based) pipeline and decides these small queries quickly
+            slv = z3.Solver(); slv.set('timeout', s.opts.get('solver_timeout_ms', 20000))
+            slv.add(*s.pc)
+            if extra is not None: slv.add(extra)
+            r = slv.check()
+            s.stats['fresh_solver_calls'] += 1
         else:
-            r = s.solver.check()
+            slv = s.solver
+            r = slv.check(extra) if extra is not None else slv.check()
+        s.last_solver = slv
         s.stats['solver_s'] += time.time() - t0
         s.stats['solver_calls'] += 1
         if r == z3.unknown:
-            raise ExecError('solver returned unknown: ' + s.solver.reason_unknown())
+            dd = os.environ.get('IRSYM_DUMP_UNKNOWN')
+            if dd:
+                with open(os.path.join(dd, 'unk_%d_%d.smt2' % (os.getpid(), s.checks)), 'w') as f_:
+                    s3 = z3.Solver(); s3.add(*s.pc)
+                    if extra is not None: s3.add(extra)
+                    f_.write(s3.to_smt2().replace('(check-sat)', ''))
+                    f_.write('(check-sat)\n')
+            raise ExecError('solver returned unknown: ' + slv.reason_unknown())
         if r == z3.sat:
-            s.mcache.append(s.solver.model())
+            s.mcache.append(slv.model())
             if len(s.mcache) > 6: s.mcache.pop(0)
         return r == z3.sat
 
@@ -521,6 +562,13 @@ class Machine:
         s.decisions.append(True); s.add_pc(may)
         return True
 
+    def decide_free(s):
+        k = len(s.decisions)
+        if k < len(s.prefix):
+            d = s.prefix[k]; s.decisions.append(d); return d
+        s.new_prefixes.append(list(s.decisions) + [False]); s.decisions.append(True); s.stats['forks'] += 1
+        return True
+
     def concretize(s, v):
         """fork the path over the feasible values of a symbolic int / bool"""
         if isinstance(v, SymB): return 1 if s.decide(v) else 0
@@ -530,7 +578,7 @@ class Machine:
             # propose the value this path will take: replay prefix decides; otherwise ask the solver
             k = len(s.decisions)
             if not s.check(): raise PathEnd('infeasible')
-            m = s.solver.model()
+            m = s.last_solver.model()
             val = m.eval(v.t, model_completion=True)
             try: c = val.as_long()
             except Exception:
@@ -583,7 +631,7 @@ class Machine:
             return SymF(t, lo, hi, ex, Fraction(0))
         r = U * M + TINY
         s.stats['round_terms'] += 1
-        return SymF(t, lo - r, hi + r, None, perr + r)
+        return SymF(t, dn(lo - r), up(hi + r), None, up(perr + r))
 
     def fbin(s, op, a, b):
         if isinstance(a, float) and isinstance(b, float):
@@ -610,7 +658,7 @@ class Machine:
             c = [A.lo * B.lo, A.lo * B.hi, A.hi * B.lo, A.hi * B.hi]
             perr = ma * B.err + mb * A.err + A.err * B.err
             if isinstance(a, float) or isinstance(b, float): s.stats['lin_mul'] += 1
-            else: s.stats['nonlin_mul'] += 1
+            else: s.stats['nonlin_mul'] += 1; s.nl = True
             return s.mk(A.t * B.t, min(c), max(c), A.ex + B.ex if both else None, perr)
         if op == 'fdiv':
             if B.lo <= 0 <= B.hi:
@@ -634,7 +682,7 @@ class Machine:
                 if A.ex is not None and fb.numerator in (1, -1): ex = A.ex     # b = +-2^-k : multiply
                 elif A.ex is not None and fb.denominator == 1 and (abs(fb.numerator) & (abs(fb.numerator) - 1)) == 0:
                     ex = A.ex + abs(fb.numerator).bit_length() - 1
-            else: s.stats['nonlin_div'] += 1
+            else: s.stats['nonlin_div'] += 1; s.nl = True
             return s.mk(A.t / B.t, min(c), max(c), ex, perr)
         raise ExecError('fbin ' + op)
 
@@ -681,17 +729,30 @@ class Machine:
             return SymB(t)
         S = rv(sl); NS = rv(-sl)
         s.stats['banded_cmp'] += 1
-        if base == 'lt': return SymB(d < S, d < NS)
-        if base == 'le': return SymB(d <= S, d <= NS)
-        if base == 'gt': return SymB(d > NS, d > S)
-        if base == 'ge': return SymB(d >= NS, d >= S)
-        if base == 'eq': return SymB(z3.And(d <= S, d >= NS), z3.BoolVal(False))
-        if base == 'ne': return SymB(z3.BoolVal(True), z3.Or(d > S, d < NS))
+        # a banded comparison is decided on the spot (forking if both outcomes are possible inside the
+        # rounding band) and remembered: comparing the same two values again on this path must agree
+        ka = A.t.get_id(); kb = B.t.get_id()
+        canon, pos = {'lt': ('lt', True), 'le': ('le', True), 'gt': ('le', False), 'ge': ('lt', False),
+                      'eq': ('eq', True), 'ne': ('eq', False)}[base]
+        prev = s.band_memo.get((canon, ka, kb))
+        if prev is not None:
+            s.stats['band_memo_hits'] += 1
+            return int(prev[0] == pos)
+        if base == 'lt': b = SymB(d < S, d < NS)
+        elif base == 'le': b = SymB(d <= S, d <= NS)
+        elif base == 'gt': b = SymB(d > NS, d > S)
+        elif base == 'ge': b = SymB(d >= NS, d >= S)
+        elif base == 'eq': b = SymB(z3.And(d <= S, d >= NS), z3.BoolVal(False))
+        else: b = SymB(z3.BoolVal(True), z3.Or(d > S, d < NS))
+        r = s.decide(b)
+        s.band_memo[(canon, ka, kb)] = (r == pos, A.t, B.t)      # keeps the terms (and their ids) alive
+        s.band_strict.append(b.must if r else z3.Not(b.t))
+        return int(r)
         raise ExecError('fcmp ' + pred)
 
     def model(s):
         """values of all harness inputs in the solver's current model: [(name, kind, Fraction)]"""
-        m = s.solver.model()
+        m = s.last_solver.model()
         return [(n, k, z3frac(m.eval(v, model_completion=True))) for (n, v, k) in s.inputs]
 
     def int_model(s, extra=None):
@@ -723,6 +784,7 @@ class Machine:
         by = {n: fr for (n, k, fr) in vals}
         out = []
         for (n, v, k) in s.inputs:
+            if k == 'choice': continue
             fr = by[n]
             out.append((v, rv(fr) if z3.is_real(v) else z3.IntVal(int(fr))))
         return out
@@ -780,8 +842,15 @@ class Machine:
             if s.stack:
                 f0 = s.stack[-1]; i0 = f0.fn.blocks[f0.bi][1][f0.ii]
                 where = '[%s %s in block %s] ' % (i0.op, i0.res, f0.fn.blocks[f0.bi][0]) + where
-            s.violations.append((e.kind, e.msg, where, e.model if e.model is not None else s.try_model()))
-            result = 'violation'
+            mdl = e.model
+            if mdl is None:
+                try: mdl = s.int_model()
+                except ExecError: mdl = None; result = 'violation'
+            if mdl is None and result != 'violation':
+                result = 'infeasible_over_integers'      # path exists only in the real relaxation
+            else:
+                s.violations.append((e.kind, e.msg, where, mdl))
+                result = 'violation'
         return result
 
     def try_model(s):
@@ -1235,6 +1304,19 @@ def h_call(s, fr, ins):
         name = fp.name
     name = s.alias.get(name, name)
     f = s.m.funcs.get(name)
+    ov = s.override.get(name, 0)
+    if ov == 0:
+        ov = None
+        for rx, hh in OVERRIDE_PATTERNS:
+            if rx.match(name): ov = hh; break
+        s.override[name] = ov
+    if ov is not None:
+        args = [(None if isinstance(a.ty, TMeta) else s.opv(fr, a)) for a in ins.args]
+        r = ov(s, fr, ins, args)
+        if ins.res is not None and not isinstance(ins.ty, TVoid): fr.regs[ins.res] = r
+        if ins.op == 'invoke': s.jump(fr, ins.normal)
+        else: fr.ii += 1
+        return
     if f is not None and f.is_def:
         args = [s.opv(fr, a) for a in ins.args]
         nf = Frame(f)
@@ -1303,9 +1385,13 @@ def x_double_in(s, fr, ins, a):
     v = s.fresh_input('real'); s.add_pc(z3.And(v >= rv(lo), v <= rv(hi)))
     return SymF(v, lo, hi, None)
 def x_choice(s, fr, ins, a):
+    """unconstrained choice in [0,n): a pure fork (no solver variable: the path condition stays purely real)"""
     n = sgn(a[0], 32)
-    v = s.fresh_input('choice'); s.add_pc(z3.And(v >= 0, v <= n - 1))
-    return s.concretize(SymI(v, 0, n - 1, 32))
+    c = n - 1
+    for i in range(n - 1):
+        if s.decide_free(): c = i; break
+    s.inputs.append(('in%d' % len(s.inputs), z3.IntVal(c), 'choice'))
+    return c
 def x_heap_order(s, fr, ins, a):
     s.heap_order = a[0] & 1; return None
 def x_assume(s, fr, ins, a):
@@ -1334,10 +1420,12 @@ def x_assert(s, fr, ins, a):
             if m is not None:
                 band = isinstance(c, SymB) and not c.exact() and not s.check(z3.Not(t))
                 s.violations.append(('assert-band' if band else 'assert', msg, '', m))
-            if not s.check(t): raise PathEnd('assert_always_fails')
+            if not s.check(t): raise PathEnd('assert_always_fails' if m is not None else 'infeasible_over_integers')
         s.add_pc(t)
     elif not (c & 0xffffffff):
-        s.violations.append(('assert', msg, '', s.try_model()))
+        m = s.int_model()
+        if m is None: raise PathEnd('infeasible_over_integers')
+        s.violations.append(('assert', msg, '', m))
     return None
 def x_out(s, fr, ins, a): s.outputs.append(a[0]); return None
 def x_assert_fail(s, fr, ins, a):
@@ -1491,6 +1579,11 @@ EXTERNAL_PATTERNS = [
     (re.compile(r'^@(_ZNSt8ios_base4Init[CD]1Ev|_ZNSo.*|_ZSt16__ostream_insert.*|_ZNSt8ios_baseD2Ev|_ZNSt6locale[CD]1Ev|_ZNSt9basic_iosIcSt11char_traitsIcEE.*|printf|fprintf|puts|fflush)$'), x_noop),
     (re.compile(r'^@_ZSt\d+__throw_.*'), x_throw_std),
 ]
+# defined functions whose bodies are replaced by stubs (formatting / logging is never the subject of a claim)
+OVERRIDE_PATTERNS = [
+    # operator<<(std::ostream&, T const&) of the libraries' own types
+    (re.compile(r'^@_ZN(4vpsc|5Avoid|4cola|8topology|7dialect)lsERSoRK.*'), lambda s, fr, ins, a: a[0]),
+]
 DEFAULT_ALIASES = {
     '@_ZSt18_Rb_tree_incrementPSt18_Rb_tree_node_base': '@__model_rb_increment',
     '@_ZSt18_Rb_tree_incrementPKSt18_Rb_tree_node_base': '@__model_rb_increment',
@@ -1544,12 +1637,14 @@ class PathSummary:
 def validate_path(M, exe):
     """run this path's model through the native binary; compare every verif_out_* value.
     returns 'ok' | 'skipped:<why>' | 'mismatch:<what>'"""
-    vals = M.int_model()
-    if vals is None: return 'skipped:no integral model'
+    strict = [c for c in M.band_strict if not z3.is_true(c)]
+    if any(z3.is_false(c) for c in strict): return 'skipped:path exists only inside a rounding band'
+    vals = M.int_model(z3.And(*strict) if strict else None)
+    if vals is None: return 'skipped:no integral model' if not strict else 'skipped:path exists only inside a rounding band'
     # snap double inputs to doubles
     snapped = [(n, k, (Fraction(float(fr)) if k == 'real' else fr)) for (n, k, fr) in vals]
     if snapped != vals:
-        if not M.holds_under(snapped): return 'skipped:model not representable as doubles on this path'
+        if not M.holds_under(snapped, z3.And(*strict) if strict else None): return 'skipped:model not representable as doubles on this path'
         vals = snapped
     sub = M.subst(vals)
     rc, out, err = run_native(exe, vals)
